@@ -472,11 +472,15 @@ theorem addMod_ok (k src : Int) (x : U α) :
   · exact ⟨rfl, rfl, rfl⟩
   split
   · split <;> exact ⟨rfl, rfl, rfl⟩
+  split
+  · exact ⟨rfl, rfl, rfl⟩
   split <;> exact ⟨rfl, rfl, rfl⟩
 
 theorem rmMod_ok (k : Int) (x : U α) :
     (rmMod x k).id = x.id ∧ (rmMod x k).life = x.life ∧ (rmMod x k).lastAtk = x.lastAtk := by
   unfold rmMod
+  split
+  · exact ⟨rfl, rfl, rfl⟩
   split
   · exact ⟨rfl, rfl, rfl⟩
   split
